@@ -282,4 +282,22 @@ example := path_connected gTwo (edgeSymB_sound (by decide)) 2 [] _
 example := started_only_inside gTwo (edgeSymB_sound (by decide)) 2 [] _
   (.step _ 0 ⟨none, 0⟩ 9 (.init []) (by decide) (by decide)) 1 0 (by decide)
 
+/-- Witness that the `failed` alternative of `started_only_inside` / `bounce_needs_runner` cannot be dropped: two
+workers, one class with `max_tries = -1`.  Worker 0 runs its copy (PASS) and dies in the following run decision
+(`ValueError`, mark already returned); worker 1 then enters its own copy, the run decision raises after the mark was
+set — the worker is dead and still holds the mark (the code behaves the same: the exception leaves `traverse_node`
+before `started_worker` is reset). -/
+def gNeg : Graph :=
+  { workers := [{ id := "net1", swarm := "localhost" }, { id := "net2", swarm := "localhost" }],
+    nodes := [{ cls := 0, owner := none, name := "root", pfx := "0", sharedRoot := true,
+                cleanup := [(1, ["vm1"]), (2, ["vm1"])] },
+              { cls := 1, owner := some 0, name := "leaf.net1", pfx := "1", setup := [(0, ["vm1"])], maxTries := some (-1) },
+              { cls := 1, owner := some 1, name := "leaf.net2", pfx := "2", setup := [(0, ["vm1"])], maxTries := some (-1) }],
+    root := 0 }
+
+def sNeg : State :=
+  runSchedule gNeg 9 (initState gNeg 2 []) [(0, ⟨none, 0⟩), (0, ⟨some "PASS", 1⟩), (1, ⟨none, 0⟩)]
+
+theorem dead_worker_keeps_mark : (sNeg.nd 2).started = some 1 ∧ (sNeg.wd 1).pc.isFailed = true := by decide
+
 end I2N.Props.C02
